@@ -105,7 +105,8 @@ func (g *gen) intExpr(d int) string {
 	case 1:
 		return "lim(" + g.intExpr(d-1) + " - " + g.intExpr(d-1) + ")"
 	case 2:
-		return "lim(" + g.intExpr(d-1) + " * " + g.intExpr(d-1) + ")"
+		// both factors are reduced first: the product of two lim values would leave 32 bits
+		return "lim((" + g.intExpr(d-1) + " % 4000) * (" + g.intExpr(d-1) + " % 4000))"
 	case 3:
 		return "(" + g.intExpr(d-1) + " / " + fmt.Sprint(g.ir(1, 9, "div")) + ")"
 	case 4:
